@@ -6,6 +6,9 @@ import (
 	"text/template"
 )
 
+// IsCriticalExpr is the generated test of whether the type number typ is critical.
+const IsCriticalExpr = `((typ <= 31) || ((typ & 1) == 1))`
+
 func GenTypeNumLen(typeNum uint64) (string, error) {
 	var ret uint
 	switch {
